@@ -152,6 +152,9 @@ JudgeEffect(ev, pre, post, i) ==
         ELSE IF same THEN
             (IF ev.resp.cond = "no-uid-conflict"
                THEN Viol("C06", [w |-> "spurious-uid-refusal", op |-> ev.op], i)
+             ELSE IF ev.op \in {"Put", "Delete"} /\ ev.resp.cls = "precond" /\ ev.resp.cond = ""
+               \* a bare 412 claims that a condition failed - but every condition sent holds
+               THEN Viol("C03", [w |-> "precondition-failed-although-conditions-hold", op |-> ev.op], i)
                ELSE Note([w |-> "unexpected-refusal", op |-> ev.op, cls |-> ev.resp.cls,
                           st |-> ev.resp.status], i))
         ELSE Viol("C01", [w |-> "refused-but-changed", op |-> ev.op, cls |-> ev.resp.cls], i)
@@ -354,6 +357,7 @@ JudgeSync(post, i) ==
 
 JudgeMultiget(ev, post, i) ==
     IF ev.op # "Multiget" \/ ev.c \notin Colls(post) THEN {} ELSE
+    IF post.colls[ev.c].kind \notin {"calendar", "addressbook"} THEN {} ELSE   \* report not offered there
     LET ms == post.colls[ev.c].members
         Groups == {ev.items[j].g : j \in DOMAIN ev.items}
         ItemsOf(g) == {j \in DOMAIN ev.items : ev.items[j].g = g}
@@ -377,7 +381,9 @@ JudgeMultiget(ev, post, i) ==
       \cup
       UNION {
         LET a == ev.answers[k]  live == it.n \in DOMAIN ms IN
-        CASE it.cls \in {"live", "dup", "enc", "abs"} /\ live /\ BKind(ms[it.n].b) = ev.rk ->
+        \* the class only says how the href was spelled; what it must be answered
+        \* with is decided by the state
+        CASE it.cls \in {"live", "missing", "dup", "enc", "abs"} /\ live /\ BKind(ms[it.n].b) = ev.rk ->
                (IF ~a.found \/ a.e # ms[it.n].e \/ ~a.hasdata \/ a.xn # ms[it.n].xn
                   THEN Viol("C17", [w |-> "wrong-answer-for-live-href", item |-> it, a |-> a], i) ELSE {})
           [] it.cls = "othercoll" -> {}
@@ -403,6 +409,7 @@ JudgeReupload(ev, pre, post, i) ==
     IF ~(ev.op = "Put" /\ ev.re) THEN {} ELSE
     IF ev.c \notin Colls(pre) \/ ev.c \notin Colls(post) THEN {} ELSE
     LET a == pre.colls[ev.c]  b == post.colls[ev.c] IN
+    IF ev.lk /\ ev.resp.cls = "locked" THEN {} ELSE
     IF ev.resp.cls # "ok" THEN Viol("C14", [w |-> "reupload-refused", cls |-> ev.resp.cls], i)
     ELSE
     (IF ev.n \in DOMAIN a.members /\ ev.n \in DOMAIN b.members /\ a.members[ev.n].e # b.members[ev.n].e
